@@ -108,7 +108,7 @@ def check_append_only(chk, tu):
 
 def check_insertion(chk, tu):
     # wasiFileDescriptorAdd on a table of n slots returns n and leaves the old slots untouched
-    for n_extra in (0, 2):
+    for n_extra in ((0, 2) if chk.tier == 'quick' else (0, 1, 2, 3, 5, 8)):
         res = {'v': unk('out')}
         before = std_table(n_extra)
 
